@@ -267,6 +267,30 @@ func init() {
 				}
 				cs = append(cs, fw.MkCase("C01", "graph", s, spec))
 			}
+			// process_healthy on a dependency whose exec readiness probe can only
+			// fail (exit code, hang past timeout_seconds, killed, not runnable):
+			// no probe success is ever recorded, so the dependent must never be
+			// launched - also not when the dependency is stopped at the threshold,
+			// restarted by its policy, or ends by itself (seeded change C01-r4-2)
+			for i := 0; i < tierN(tier, 12, 96); i++ {
+				s := fw.SubSeed(seed, 7700000+i)
+				rng := fw.Rand(s)
+				cmd := []string{"exit 3", "sleep 20", "kill -9 $$", "/nonexistent/pcverif-probe"}[i%4]
+				hp := PSpec{Name: "hp", RunMs: []int{-1}, Restart: []string{"no", "", "on_failure"}[rng.Intn(3)], ProbeExec: cmd, ProbeFail: 1 + rng.Intn(3)}
+				if i%8 >= 4 {
+					// ends by itself, before or after the first probe verdict
+					hp.RunMs = []int{500 + rng.Intn(2500)}
+					hp.Exits = []int{rng.Intn(2)}
+				}
+				spec := LifeSpec{BackoffUnitMs: 20, SilenceMs: 6000, MaxMs: 30000, EndWithShutdown: true,
+					Procs: []PSpec{hp, {Name: "user", RunMs: []int{20}, Deps: []Dep{{On: "hp", Cond: types.ProcessConditionHealthy}}}}}
+				if hp.RunMs[0] < 0 {
+					spec.Ops = []Op{{When: "signal:hp", Op: "sleep", N: 50 + rng.Intn(200)}}
+				} else {
+					spec.Ops = []Op{{When: "state:hp:" + types.ProcessStateCompleted, Op: "sleep", N: 50}}
+				}
+				cs = append(cs, fw.MkCase("C01", "gate-exec-probe", s, spec))
+			}
 			return cs
 		},
 		Run: func(c fw.Case) fw.Result {
